@@ -49,7 +49,7 @@ class URead(Family):
         self.name = "uread"
         self.by_attr = "attr" in kind
         self.attr_reads = {("S", "rd"): [target]} if self.by_attr else {}
-        self.name_reads = {("S", "rd"): [target]} if not self.by_attr else {}
+        self.name_reads = {("S", "rd"): [target] + ([("S", "g")] if kind == "byname-global" else [])} if not self.by_attr else {}
 
     def extra_tags(self):
         return ["read:" + self.kind]
@@ -406,12 +406,15 @@ def enumerate_items(tier, rng):
         es = [i for i, a in enumerate(alpha) if a[1] == "edit"]
         key_edits = [i for i in es if alpha[i][0].startswith(("flip-", "set-ref-read", "del-ref-read", "new-ref-shadowing"))]
         if tier == "quick":
-            for pre in [(), tuple(qs), (qs[0],)]:
+            for pre in [(), tuple(qs)]:
                 for e1 in es:
                     items.append((fi, pre + (e1,)))
+            key2 = [i for i in es if alpha[i][0].startswith(("flip-", "set-ref", "del-", "formula-", "new-ref", "rename", "remove-base",
+                                                            "change-space", "clear-item", "override"))]
+            full = fam.name != "uread" or fam.kind in ("byname-own", "child-attr", "model-attr", "refspace-attr")
             for e1 in es:
-                for e2 in es:
-                    if fam.name == "uread" and e1 not in key_edits and e2 not in key_edits:
+                for e2 in (key2 if fam.name != "uread" else key_edits):
+                    if e1 == e2 or (not full and e1 not in key_edits):
                         continue
                     items.append((fi, tuple(qs) + (e1, e2)))
         else:
